@@ -408,8 +408,10 @@ def judge_history(h, want, ignore_envelope=False):
             clauses.add("P21-recreated-before-delete-delivered")
         if kind == "nodeAdd" and booted and f[3] != "-" and f[1] not in before["api_nodes"]:
             clauses.add("P18-node-created-with-cidrs")
+            clauses.add("P18-node-created-with-cidrs@" + f[1])
         if kind == "nodeSetCIDRs" and booted:
             clauses.add("P18-node-created-with-cidrs")
+            clauses.add("P18-node-created-with-cidrs@" + f[1])
         if kind == "deliverNode" and f[2] == "1" and f[1] not in api_nodes:
             clauses.add("P19-tombstone")
             clauses.add("P19-tombstone@" + f[1])
@@ -441,6 +443,10 @@ def judge_history(h, want, ignore_envelope=False):
                     for sp in specs.values():
                         if any(overlap(cc, r) for r in sp.ranges()) and not sp.eligible(nd["labels"])[0]:
                             clauses.add("P10-holder-not-selected")
+                        # a pod CIDR that strictly contains a whole ClusterCIDR range is recorded, at start-up, in that
+                        # ClusterCIDR only (Occupy succeeds with "all blocks"): the rest of it is unrecorded (P23)
+                        if any(r[0] == cc[0] and inside(r, cc) and r != cc for r in sp.ranges()):
+                            clauses.add("P23-cidr-contains-range")
                     if any(overlap(cc, sv) for sv in svcs) or (kind == "boot" and any(overlap(cc, ptok(t)) for t in f[1:3] if t != "-")):
                         clauses.add("node-inside-service-range")
 
@@ -665,11 +671,12 @@ def check_patches(i, op, f, ob, before, specs, svcs, boot_mapped, holders_shown,
                         bad("C01", i, f"node {node} assigned {toks}, overlapping {t} held by existing node {other}",
                             ("P9-cc-created-over-holder", "P12-overlap-different-block-size", "P13-lost-node-write", "P18-node-created-with-cidrs",
                              "label-edit", "P17b-multi-cidr-preset", "P15-deleted-before-finalizer", "generation-bumped", "P10-holder-not-selected", "preexisting-overlap",
-                             "P22-double-association"))
+                             "P22-double-association", "P23-cidr-contains-range"))
                         if boots >= 2 and listed_at_boot is not None and t in listed_at_boot.get(other, ()):
                           bad("C03", i, f"after a restart node {node} was assigned {toks}, overlapping {t} held by node {other}, which the restart had listed",
                             ("P9-cc-created-over-holder", "P12-overlap-different-block-size", "P13-lost-node-write", "P18-node-created-with-cidrs",
-                             "label-edit", "P17b-multi-cidr-preset", "P15-deleted-before-finalizer", "generation-bumped", "P10-holder-not-selected", "preexisting-overlap"))
+                             "label-edit", "P17b-multi-cidr-preset", "P15-deleted-before-finalizer", "generation-bumped", "P10-holder-not-selected", "preexisting-overlap",
+                             "P23-cidr-contains-range"))
         # C09: service ranges, for ClusterCIDRs known at start-up
         for c in cs:
             for s in svcs:
@@ -774,6 +781,9 @@ def check_cc_item(i, op, f, ob, before, specs, bad, clauses, del_processed, fin_
         return
     if vo["deleting"] and FIN in vo["fins"]:
         del_processed[name] = True
+    elif not vo["deleting"]:
+        # the cache holds a live object of that name again: a new ClusterCIDR, whose deletion has not been requested
+        del_processed.pop(name, None)
     for w in ob["ccw"]:
         if w["name"] == name and FIN not in w["fins"] and vo["deleting"] and w["outcome"] in ("ok", "lost"):
             # finalizer removed: no existing node may depend on this ClusterCIDR
@@ -792,7 +802,7 @@ def check_cc_item(i, op, f, ob, before, specs, bad, clauses, del_processed, fin_
                             elif any(overlap(c, b) for b in used_blocks(e, sp)) and not recorded_elsewhere(c, name, before["snap"], specs):
                                 bad("C06", i, f"finalizer of {name} removed while existing node {n} holds {t}, reserved only there",
                                     ("P11-overlapping-clustercidrs", "label-edit@" + n, "P17b-multi-cidr-preset", "P19-tombstone@" + n, "P13-lost-node-write@" + n,
-                                     "P10-holder-not-selected", "preexisting-overlap"))
+                                     "P10-holder-not-selected", "preexisting-overlap", "P18-node-created-with-cidrs@" + n, "generation-bumped"))
             fin_removed.add(name)
 
 
